@@ -36,7 +36,7 @@ FAILURE == 1
 
 SessIds == 0 .. 15
 
-NoSes == [ phase |-> "none", codec |-> 0, role |-> "none", k |-> 0, n |-> 0, len |-> 0, m |-> 0,
+NoSes == [ phase |-> "none", codec |-> 0, role |-> "none", k |-> 0, n |-> 0, len |-> 0, m |-> 0, npos |-> 0,
            payload |-> "id", H |-> <<>>, claim |-> FALSE, cbMode |-> "none",
            rcvd |-> {}, known |-> {}, done |-> FALSE, finished |-> FALSE, mlok |-> FALSE,
            appHeld |-> {}, appMaybe |-> {}, cbs |-> {}, built |-> <<>>, everComplete |-> FALSE ]
@@ -107,6 +107,7 @@ DoSetParams(s0, ev) ==
     LET H  == IF "H" \in DOMAIN ev THEN [ i \in DOMAIN ev.H |-> ToSet(ev.H[i]) ] ELSE <<>>
         s1 == [s0 EXCEPT !.phase = IF ev.st = OK THEN "configured" ELSE "badparams",
                          !.k = ev.k, !.n = ev.k + ev.r, !.len = ev.len, !.m = ev.m, !.payload = ev.payload,
+                         !.npos = IF "npos" \in DOMAIN ev THEN ev.npos ELSE 0,
                          !.H = H,
                          !.claim = ("lastnull" \in DOMAIN ev) /\ ev.lastnull = 1]
         cwFails ==
@@ -154,11 +155,10 @@ SetAvailNext(s0, S) ==
     THEN [s0 EXCEPT !.rcvd = S, !.appHeld = S \cap Src(s0)]
     ELSE LET k1 == PeelClosure(s0.H, s0.known \cup S)
              fresh == (S \cap Src(s0)) \ s0.known
-             \* a source symbol of S that the other symbols already release may be
-             \* either kept by pointer or decoded: the property does not say which
-             maybe == { j \in fresh : j \in PeelClosure(s0.H, s0.known \cup (S \ {j})) }
-         IN  [s0 EXCEPT !.rcvd = s0.rcvd \cup S, !.known = k1,
-                        !.appHeld = s0.appHeld \cup (fresh \ maybe), !.appMaybe = s0.appMaybe \cup maybe]
+             \* every symbol of the table is *received* by this call: a source symbol that was still unknown
+             \* before the call must be kept by pointer and must not trigger the callback, whatever the
+             \* order in which the implementation walks the table
+         IN  [s0 EXCEPT !.rcvd = s0.rcvd \cup S, !.known = k1, !.appHeld = s0.appHeld \cup fresh]
 
 DoSetAvail(s0, ev, sid) ==
     LET S  == ToSet(ev.set)
@@ -230,6 +230,7 @@ DoGetTab(s0, ev) ==
                     \cup F(nonnull \subseteq A, availTag, "symbol-available-but-not-derivable")
                     \cup F(A \subseteq nonnull, availTag \o ",C10", "symbol-derivable-but-not-available")
                     \cup F(\A i \in nonnull \cap s0.appHeld : T[i + 1].o = "app", "C10", "received-source-not-same-pointer")
+                    \cup F(\A i \in nonnull : T[i + 1].o # "appdup", "C10", "duplicate-buffer-replaced-first-pointer")
                     \cup F(\A i \in (nonnull \cap A) \ s0.appHeld : T[i + 1].o \in expectOrigin(i), "C11", "decoded-symbol-buffer-origin")
                     \cup Common(ev) ]
 
@@ -252,20 +253,36 @@ BinRepair(s0, ev) ==
 BuiltBefore(s0, esi) ==
     \A e \in s0.H[esi - s0.k + 1] \ {esi} : e < s0.k \/ (Len(s0.built) >= e - s0.k + 1 /\ s0.built[e - s0.k + 1] # {-1})
 
+(* replicated identity payload ("idr"): source i carries a 1 at every position p = i (mod k), so a built   *)
+(* symbol must carry the generator row / parity vector in every block of k positions up to the very last  *)
+(* byte: this is what exercises the tails of the byte kernels with non-zero data (C13 checks them alone)  *)
+BaseVec(s0, v) == { v[i][1] : i \in { j \in DOMAIN v : v[j][1] < s0.k } }
+RepBinOK(s0, v, want) == Vec(v) = { p \in 0 .. (s0.npos - 1) : (p % s0.k) \in want }
+RepRsOK(s0, ev) ==
+    LET m == IF s0.codec = 1 THEN 8 ELSE s0.m
+        g == RowFromPairs(ev.v, s0.k)
+    IN  /\ IsGeneratorRow(g, s0.k, ev.esi, m)
+        /\ \A i \in DOMAIN ev.v : ev.v[i][1] < s0.npos /\ ev.v[i][2] = g[(ev.v[i][1] % s0.k) + 1]
+        /\ Len(ev.v) = Cardinality({ p \in 0 .. (s0.npos - 1) : g[(p % s0.k) + 1] # 0 })
+
 DoBuild(s0, ev) ==
     LET idx == ev.esi - s0.k + 1
         has == "v" \in DOMAIN ev
+        rep == s0.payload = "idr"
         valueOk ==
-            IF ~has THEN s0.payload # "id"
-            ELSE IF IsBin(s0) THEN (BuiltBefore(s0, ev.esi) => Vec(ev.v) = BinRepair(s0, ev))
-            ELSE RsRowOK(s0.codec, s0.m, s0.k, ev.esi, ev.v, s0.len)
+            IF ~has THEN s0.payload = "rnd"
+            ELSE IF IsBin(s0) THEN (BuiltBefore(s0, ev.esi) =>
+                                      IF rep THEN RepBinOK(s0, ev.v, BinRepair(s0, ev)) ELSE Vec(ev.v) = BinRepair(s0, ev))
+            ELSE IF rep THEN RepRsOK(s0, ev) ELSE RsRowOK(s0.codec, s0.m, s0.k, ev.esi, ev.v, s0.len)
+        thisVec == IF rep THEN BaseVec(s0, ev.v) ELSE Vec(ev.v)
         b1 == IF has /\ IsBin(s0)
-              THEN [ j \in 1 .. (s0.n - s0.k) |-> IF j = idx THEN Vec(ev.v)
+              THEN [ j \in 1 .. (s0.n - s0.k) |-> IF j = idx THEN thisVec
                                                      ELSE IF j <= Len(s0.built) THEN s0.built[j] ELSE {-1} ]
               ELSE s0.built
         tag == IF s0.codec = 5 THEN "C16" ELSE "C06"
     IN  [ s |-> [s0 EXCEPT !.built = b1],
           fails |-> F(s0.phase = "configured" /\ s0.role = "enc", "INFRA", "driver-protocol")
+                    \cup F(rep => s0.npos >= s0.k, "INFRA", "driver-replicated-payload-shorter-than-k")
                     \cup F(ev.st = OK, tag, "build-status")
                     \cup F(ev.st = OK => "o" \in DOMAIN ev /\ ev.o = (IF ev.slot = "null" THEN "lib" ELSE "app"), tag, "build-output-slot")
                     \cup F(ev.st = OK => valueOk, tag, "repair-symbol-not-canonical")
